@@ -16,7 +16,8 @@ from mc.common import Counter, pmap, violation
 
 PROP = "C12"
 V1, V2, BAD = 5, 6, "bad"
-HOSTS = ["plain", "spec_unannotated", "spec_managed", "spec_managed_preparer", "spec_managed_illtyped_getter"]
+HOSTS = ["plain", "spec_unannotated", "spec_managed", "spec_managed_preparer", "spec_managed_illtyped_getter", "plain_none_getter",
+         "spec_managed_optional"]
 
 
 # ------------------------------------------------------------------------------------------------
@@ -33,6 +34,8 @@ def make_host(cfg):
         calls["get"] += 1
         if illtyped:
             return "ill" + str(self.base)
+        if host in ("plain_none_getter", "spec_managed_optional") and self.base == 2:
+            return None  # a legitimate getter result that happens to be None
         return self.base * 10
 
     p = spec_property(getter, overridable=overridable, cache=cache)
@@ -49,7 +52,7 @@ def make_host(cfg):
 
         p = p.deleter(fdel)
     ns = {"p": p}
-    if host == "plain":
+    if host in ("plain", "plain_none_getter"):
 
         def __init__(self):
             self.base = 1
@@ -59,7 +62,11 @@ def make_host(cfg):
     else:
         ann = {"base": int}
         ns["base"] = 1
-        if host != "spec_unannotated":
+        if host == "spec_managed_optional":
+            from typing import Optional
+
+            ann["p"] = Optional[int]
+        elif host != "spec_unannotated":
             ann["p"] = int
         if host == "spec_managed_preparer":
 
@@ -86,12 +93,19 @@ class RefProp:
     def managed(self):
         return self.cfg["host"].startswith("spec_managed")
 
+    def getter(self):
+        if self.cfg["host"] in ("plain_none_getter", "spec_managed_optional") and self.base == 2:
+            return None
+        return self.base * 10
+
     def prep(self, v):
         if self.cfg["host"] == "spec_managed_preparer" and isinstance(v, int) and not isinstance(v, bool):
             return v + 1000
         return v
 
     def typed_ok(self, v):
+        if self.cfg["host"] == "spec_managed_optional":
+            return v is None or isinstance(v, int)
         return (not self.managed()) or (isinstance(v, int))
 
     def apply(self, op):
@@ -103,7 +117,11 @@ class RefProp:
                 return ("value", self.slot[1])
             if c["host"] == "spec_managed_illtyped_getter":
                 return ("raise", {"TypeError", "ValueError"})
-            g = self.prep(self.base * 10) if self.managed() else self.base * 10
+            try:
+                self.getter()  # the harness' getter multiplies the underlying state (None * 10 raises, 'bad' * 10 does not)
+            except TypeError:
+                return ("raise", {"TypeError"})
+            g = self.prep(self.getter()) if self.managed() else self.getter()
             if c["cache"]:
                 self.slot = ("C", g)
             return ("value", g)
@@ -114,7 +132,7 @@ class RefProp:
                 if not self.typed_ok(v):
                     return ("raise", {"TypeError", "ValueError"})
             if c["fset"]:
-                if c["host"] != "plain" and not isinstance(v, int):
+                if c["host"] not in ("plain", "plain_none_getter") and not isinstance(v, int):
                     # the custom setter writes a managed int attribute: ill-typed -> TypeError
                     return ("raise", {"TypeError"})
                 self.base = v
@@ -167,7 +185,7 @@ def fingerprint(obj):
     return repr(sorted((k, repr(v)) for k, v in vars(obj).items()))
 
 
-OPS = [["read"], ["assign", V1], ["assign", V2], ["assign", BAD], ["delete"], ["set_base", 1], ["set_base", 2]]
+OPS = [["read"], ["assign", V1], ["assign", V2], ["assign", BAD], ["assign", None], ["delete"], ["set_base", 1], ["set_base", 2]]
 
 
 def build(cfg, hist):
